@@ -50,7 +50,7 @@ const tolNs = 2000000 // 2 ms
 var (
 	inmemB *kvx.Backend
 	redisB *kvx.Backend
-	pats   = []string{"*", "a*", "?", "[ab]", "zz"}
+	pats   = []string{"*", "a*", "?", "[ab]", "zz", "a", "b"}
 )
 
 // raceRounds: see Case.Race
@@ -453,7 +453,7 @@ func toucher(kind int, key string, r *prng.R, waitMs int64) kvx.Op {
 	case 6:
 		return kvx.Op{K: "D", Key: key}
 	case 7:
-		return kvx.Op{K: "L", Pat: prng.Pick(r, []string{"*", "a*", "[ab]"})}
+		return kvx.Op{K: "L", Pat: prng.Pick(r, []string{"*", "a*", "[ab]", key, key})} // also the key itself: a pattern without any meta character
 	default:
 		return kvx.Op{K: "W", Key: key, Ver: prng.Pick(r, []string{"cur", "cur", "old"}), D: waitMs}
 	}
